@@ -28,7 +28,9 @@ Record stream_obs := { so_peer : nat; so_cli : cstate; so_dead : bool;
 Record obs := { o_threads : list (nat * status); o_streams : list stream_obs }.
 
 Inductive waiter := WT (t : nat) | WI (sd : nat).
-Record cst := { cm : state; cq : list waiter }.
+(* [cnow]: virtual time in units of 0.5 ms; [crs]: when each call's current read started *)
+Record cst := { cm : state; cq : list waiter; cnow : N; crs : fmap N }.
+Definition read_timeout : N := 20000.   (* dhtReadMessageTimeout = 10 s; the harness checks the constant *)
 
 (* ---- which events are internal ------------------------------------------ *)
 Definition is_waiting (p : pc) : bool := match p with PGot _ | PNew _ => true | _ => false end.
@@ -123,7 +125,7 @@ Definition apply_ev (c : cst) (e : event) : option cst :=
                | EInval sd => filter (fun w => negb (waiter_eqb w (WI sd))) (cq c)
                | _ => cq c
                end in
-      Some {| cm := s'; cq := requeue s' q |}
+      Some {| cm := s'; cq := requeue s' q; cnow := cnow c; crs := crs c |}
   | None => None
   end.
 
@@ -175,7 +177,7 @@ Definition events_of (s : state) (d : dstep) : option (list event) :=
       end
   | DAnswer st good => Some [ERemAnswer st good]
   | DReset st => Some [ERemReset st]
-  | DTimeout t => Some [ETimeout t]
+  | DTimeout t => Some []    (* the timer fires in [fire_due] *)
   | DDisc p kill =>
       let kills := if kill
                    then map (fun iy => ERemReset (fst iy))
@@ -186,9 +188,66 @@ Definition events_of (s : state) (d : dstep) : option (list event) :=
       Some (kills ++ [EDisc p])
   end.
 
+(* read timers: the reader whose deadline is the earliest among those that are due *)
+Definition deadline (c : cst) (t : nat) : N :=
+  match mget (crs c) t with Some r => (r + read_timeout)%N | None => 0%N end.
+Definition is_reading (th : thread) : bool := match t_pc th with PRead _ _ => true | _ => false end.
+Fixpoint earliest_due (c : cst) (ths : fmap thread) (best : option nat) : option nat :=
+  match ths with
+  | [] => best
+  | (t, th) :: rest =>
+      if is_reading th && N.leb (deadline c t) (cnow c)
+      then match best with
+           | Some b => if N.ltb (deadline c t) (deadline c b) then earliest_due c rest (Some t) else earliest_due c rest best
+           | None => earliest_due c rest (Some t)
+           end
+      else earliest_due c rest best
+  end.
+Fixpoint fire_due (fuel : nat) (c : cst) : option cst :=
+  match fuel with
+  | O => None
+  | S f =>
+      match earliest_due c (threads (cm c)) None with
+      | Some t => match apply_ev c (ETimeout t) with
+                  | Some c1 => match settle 200 c1 with Some c2 => fire_due f c2 | None => None end
+                  | None => None
+                  end
+      | None => Some c
+      end
+  end.
+
+Definition set_now (c : cst) (n : N) : cst := {| cm := cm c; cq := cq c; cnow := n; crs := crs c |}.
+Definition note_read (c : cst) (d : dstep) : cst :=
+  match d with
+  | DWrite t _ =>
+      match mget (threads (cm c)) t with
+      | Some th => if is_reading th then {| cm := cm c; cq := cq c; cnow := cnow c; crs := mset (crs c) t (cnow c) |} else c
+      | None => c
+      end
+  | _ => c
+  end.
+
+(* one driver step of the harness: the action (a timeout step sleeps until just
+   after the call's read deadline), quiescence, then 1 ms of virtual time *)
 Definition drive (c : cst) (d : dstep) : option cst :=
-  match events_of (cm c) d with
-  | Some es => match apply_evs c es with Some c' => settle 200 c' | None => None end
+  let c0 := match d with
+            | DTimeout t => set_now c (N.max (cnow c) (deadline c t + 1))
+            | _ => c
+            end in
+  match events_of (cm c0) d with
+  | Some es =>
+      match apply_evs c0 es with
+      | Some c1 =>
+          match settle 200 c1 with
+          | Some c2 =>
+              match fire_due 50 (note_read c2 d) with
+              | Some c3 => fire_due 50 (set_now c3 (cnow c3 + 2))
+              | None => None
+              end
+          | None => None
+          end
+      | None => None
+      end
   | None => None
   end.
 
@@ -367,7 +426,7 @@ Definition prop_ok (ds : list dstep) (os : list obs) : bool := prop_ok_from [] [
 
 Record case := { c_steps : list dstep; c_impl : list obs }.
 
-Definition c0 : cst := {| cm := init; cq := [] |}.
+Definition c0 : cst := {| cm := init; cq := []; cnow := 0; crs := [] |}.
 
 (* 0 agree and the property holds on the trace; 2 the property fails on the
    implementation's trace, or the trace differs from the proved model on a
